@@ -125,15 +125,12 @@ EXPORT errno_t _strpbrk_s_chk(char *dest, rsize_t dmax, char *src, rsize_t slen,
 
         ps = src;
         len = slen;
-        while (*ps) {
+        while (len && *ps) {
 
             /* check for a match with the substring */
             if (*dest == *ps) {
                 *firstp = dest;
                 return RCNEGATE(EOK);
-            }
-            if (unlikely(!len)) {
-                return RCNEGATE(ESNOTFND);
             }
             ps++;
             len--;
